@@ -76,12 +76,12 @@ ADD = {
          "Function entry binds parameters, then the arguments object, then function declarations, then vars (ES5 10.5); each relational arm passes its operands in the prescribed order with the prescribed LeftFirst flag; no writer shifts the property-order list in place under a running enumeration."),
  "C02": ("constant-index guard rule in the parser; prototype payload agreement",
          "Every constant index or slice bound on parser input is dominated by a length test that covers it; the internal value of each primitive-wrapper / Date / RegExp prototype has the Go type its constructor stores."),
- "C03": ("interprocedural typestate analysis of the allowIn flag; dead flag-store rule",
-         "Every place the grammar says Expression/AssignmentExpression is entered only with allowIn=true, the for initialiser only with false, and every writer of the flag restores it; no store to a scanner/parser flag is overwritten before it can be read."),
+ "C03": ("interprocedural typestate analysis of the allowIn flag; restricted-production rule; dead flag-store rule",
+         "After return/break/continue/throw and before a postfix ++/-- the operand is taken only when the scanner saw no line terminator (7.9.1). Every place the grammar says Expression/AssignmentExpression is entered only with allowIn=true, the for initialiser only with false, and every writer of the flag restores it; no store to a scanner/parser flag is overwritten before it can be read."),
  "C04": ("early-error rule for regular expression literals; constant-index guard rule",
          "A regular expression literal is translated and compiled at parse time and both errors are reported; constant indexing of parser input is length-guarded."),
- "C05": ("finite evaluation of the relational outcome mapping; argument-conversion table; sibling equality-kind table; positive/negative corpus for the StringNumericLiteral guard",
-         "The four relational operators map the three-valued comparison outcome as ES5 11.8.1-4 prescribe (undefined -> false); sameValue / strict equality / == agree on the six kinds and only SameValue distinguishes the zeros; the ToNumber grammar guard accepts every ES5 form and rejects every Go-only form."),
+ "C05": ("abstract execution of the == case analysis over all 36 kind pairs; typeof table; finite evaluation of the relational outcome mapping; argument-conversion table; sibling equality-kind table; positive/negative corpus for the StringNumericLiteral guard",
+         "For every ordered pair of kinds the case analysis of == reaches exactly the outcomes the ten steps of 11.9.3 reach; typeof maps each kind to the string of table 20. The four relational operators map the three-valued comparison outcome as ES5 11.8.1-4 prescribe (undefined -> false); sameValue / strict equality / == agree on the six kinds and only SameValue distinguishes the zeros; the ToNumber grammar guard accepts every ES5 form and rejects every Go-only form."),
  "C06": ("argument-conversion table; undefined-default rule",
          "parseInt's radix is converted with ToInt32, toFixed/toExponential/toPrecision/toString arguments with ToInteger, and an explicit undefined takes the default where the clause says so."),
  "C07": ("[[CanPut]] consultation order; integrity-function attribute table; enumeration-under-mutation rule; exotic [[GetOwnProperty]] fallback; SameValue call-site rule",
@@ -92,7 +92,7 @@ ADD = {
          "String.prototype position/length/limit arguments get the conversion of their clause and undefined takes the default; String objects' own-property lookup consults ordinary properties first."),
  "C10": ("undefined-default rule for the RegExp constructor; argument-conversion table (exec/test/match/replace/search/split)", "RegExp(pattern, flags) treats undefined as empty; the regexp built-ins convert their string arguments with ToString and split's limit with ToUint32."),
  "C11": ("Str step-order rule", "In JSON.stringify's walker toJSON is applied before the replacer function is called (15.12.3 Str steps 2-3)."),
- "C12": ("argument-conversion table; dead NaN-test contradiction rule", "Date constructor / Date.UTC / set* arguments are converted with ToNumber (not a NaN-absorbing conversion); no NaN test is applied to a value that can no longer be NaN."),
+ "C12": ("setter table executed for every argument count; UTC/local sibling rule; argument-conversion table; dead NaN-test contradiction rule", "Each Date.prototype.set* method assigns, for k arguments, exactly the first k time fields of its ES5 list from the arguments of the same position, with the argument limit and the zone flag of its name; UTC getters never convert to local time and local getters always do. Date constructor / Date.UTC / set* arguments are converted with ToNumber (not a NaN-absorbing conversion); no NaN test is applied to a value that can no longer be NaN."),
  "C13": ("argument-conversion table for Math and the global functions; signed-zero obligation for max/min; dead NaN-test rule", "Every Math function converts every argument with ToNumber and nothing else; Math.max/min order +0 above -0 (math.Max/Min or a sign-bit test)."),
  "C14": ("prototype payload agreement", "Boolean/Number/String/Date/RegExp.prototype hold an internal value of the Go type their constructor stores."),
  "C15": ("wrapping-conversion census", "Every conversion from an unsigned 64-bit-wide integer to a signed one is range-guarded or reviewed."),
